@@ -186,7 +186,13 @@ def _real_interp():
     if "interp" not in W:
         import ciderpress.dft.lcao_interpolation as li
         W["li"] = li
-        W["interp"] = li.LCAOInterpolator(np.array([[0.0, 0.0, 0.0], [0.0, 0.0, 1.4]]), W["atco"], 1, 1, nrad=8)
+        # every atom carries l >= 1 shells, as in every basis aug_etb_for_cider produces (one lmax for all atoms): with an s-only
+        # last atom the l-1 basis has fewer atoms than the l basis and fill_l1_coeff_* would walk past l1atco->atom_loc_ao,
+        # which is outside the interpolator's contract (an s-only atom anywhere else makes the constructor raise)
+        lc = W["lc"]
+        etb = [[(0, 2, 0.5, 2.0), (1, 1, 0.7, 2.0)], [(0, 1, 0.9, 2.0), (1, 1, 0.8, 2.0)]]
+        W["atco_l1"] = lc.ATCBasis(*lc.get_gamma_lists_from_etb_list(etb))
+        W["interp"] = li.LCAOInterpolator(np.array([[0.0, 0.0, 0.0], [0.0, 0.0, 1.4]]), W["atco_l1"], 1, 1, nrad=8)
     return W["interp"]
 
 
